@@ -108,7 +108,7 @@ def _hash_cases():
 
 
 @contract("FileHashStore._computehash", cases=_hash_cases(),
-          props={"*": ("C02", "C15", "C11")})
+          props={"*": ("C02", "C15", "C11", "C18")})
 def _computehash(it, self, stream, algorithm=NONE):
     if isinstance(algorithm, VNone):
         alg = self.f["algorithm"].term
